@@ -21,9 +21,11 @@ echo "== demo with the change (expect non-zero)"
 echo "== demo without the change (expect zero)"
 ( cd "$SEED/demo" && timeout 300 bash ./run.sh >/tmp/seed-$ID-without.log 2>&1; echo "exit=$?" )
 ( cd "$WT" && git apply "$OUT/patch.diff" && cargo build --workspace --offline -q 2>/dev/null )
-echo "== checks against the change"
+echo "== checks against the change (evidence files of the unchanged tree are put back afterwards)"
+SAVED=$(mktemp -d); cp -r /verif/evidence/. "$SAVED"/
 cd /repo && git apply "$OUT/patch.diff" || { echo "PATCH DOES NOT APPLY"; exit 3; }
 for c in $CHECKS; do
   ( cd /verif && ./check $c quick 2>&1 | grep -E "VIOLATION|class=|MACHINERY|^$c quick" | head -8 )
 done
 git -C /repo checkout -- . ; git -C /repo status --short | head -3
+cp -r "$SAVED"/. /verif/evidence/; rm -rf "$SAVED"
